@@ -721,6 +721,8 @@ package orda
 //@   props C03
 //@   requires docAPI(its) && docTxOK(its)
 //@   ensures[empty-key-and-null-value-are-refused] key == "" || value == nil ==> result1 != nil
+//@   ensures[the-wrong-kind-of-container-is-refused] !old(its.SnapshotDatatype.Snapshot.(*jsonObject)) ==> result1 != nil
+//@   ensures[a-deleted-container-is-refused] old(garbageP(primOf(its.SnapshotDatatype.Snapshot.(as jsonType)))) ==> result1 != nil
 //@   modifies *
 
 //@ func (*document).InsertToArray
@@ -728,6 +730,8 @@ package orda
 //@   props C03
 //@   requires docAPI(its) && docTxOK(its)
 //@   ensures[null-values-are-refused] (forall v in values :: v != nil) || result1 != nil
+//@   ensures[the-wrong-kind-of-container-is-refused] !old(its.SnapshotDatatype.Snapshot.(*jsonArray)) ==> result1 != nil
+//@   ensures[a-deleted-container-is-refused] old(garbageP(primOf(its.SnapshotDatatype.Snapshot.(as jsonType)))) ==> result1 != nil
 //@   modifies *
 
 //@ func (*document).UpdateManyInArray
@@ -735,6 +739,8 @@ package orda
 //@   props C03
 //@   requires docAPI(its) && docTxOK(its)
 //@   ensures[null-values-are-refused] (forall v in values :: v != nil) || result1 != nil
+//@   ensures[the-wrong-kind-of-container-is-refused] !old(its.SnapshotDatatype.Snapshot.(*jsonArray)) ==> result1 != nil
+//@   ensures[a-deleted-container-is-refused] old(garbageP(primOf(its.SnapshotDatatype.Snapshot.(as jsonType)))) ==> result1 != nil
 //@   modifies *
 
 //@ func (*document).toDocuments
@@ -774,3 +780,39 @@ package orda
 //@   dispatch jsonType : *jsonPrimitive | *jsonObject | *jsonArray | *jsonElement
 //@   requires its.common != nil && ts != nil && allocated(ts) && parent != nil && (parent.(*jsonObject) || parent.(*jsonArray))
 //@   modifies *
+
+//@ pred arrSize(d *document) = d.SnapshotDatatype.Snapshot.(as *jsonArray).listSnapshot.size
+
+// DeleteManyInArray: the wrong container kind or an invalid range is answered with an error and no documents
+//@ func (*document).DeleteManyInArray
+//@   mode math
+//@   props C03
+//@   requires docAPI(its) && docTxOK(its)
+//@   ensures[the-wrong-kind-of-container-is-refused] !old(its.SnapshotDatatype.Snapshot.(*jsonArray)) ==> result1 != nil
+//@   ensures[a-deleted-container-is-refused] old(garbageP(primOf(its.SnapshotDatatype.Snapshot.(as jsonType)))) ==> result1 != nil
+//@   ensures[invalid-range-is-refused] old(its.SnapshotDatatype.Snapshot.(*jsonArray)) && !(pos >= 0 && numOfNodes >= 1 && pos < old(arrSize(its)) && numOfNodes <= old(arrSize(its)) - pos) ==> result1 != nil
+//@   ensures[error-returns-no-documents] result1 != nil ==> len(result0) == 0
+//@   modifies *
+
+
+//@ func (*document).DeleteInObject
+//@   mode math
+//@   props C03
+//@   requires docAPI(its) && docTxOK(its)
+//@   ensures[the-wrong-kind-of-container-is-refused] !old(its.SnapshotDatatype.Snapshot.(*jsonObject)) ==> result1 != nil
+//@   ensures[a-deleted-container-is-refused] old(garbageP(primOf(its.SnapshotDatatype.Snapshot.(as jsonType)))) ==> result1 != nil
+//@   modifies *
+
+//@ func (*document).GetManyFromArray
+//@   mode math
+//@   props C03
+//@   requires docAPI(its)
+//@   ensures[the-wrong-kind-of-container-is-refused] !old(its.SnapshotDatatype.Snapshot.(*jsonArray)) ==> result1 != nil
+//@   ensures[invalid-range-is-refused] old(its.SnapshotDatatype.Snapshot.(*jsonArray)) && !(pos >= 0 && numOfNodes >= 1 && pos < old(arrSize(its)) && numOfNodes <= old(arrSize(its)) - pos) ==> result1 != nil
+//@   modifies *
+
+//@ func (*jsonArray).getManyJSONTypes
+//@   trusted walks the listSnapshot, whose contracts are stated for List values (*timedNode); callers owe a valid range
+//@   mode math
+//@   requires[valid-range] its != nil && its.listSnapshot != nil && pos >= 0 && numOfNodes >= 1 && pos < its.listSnapshot.size && numOfNodes <= its.listSnapshot.size - pos
+//@   modifies alloc
